@@ -110,14 +110,14 @@ from harness import textpath  # noqa: E402
 from harness.common import concretize, known, untraced  # noqa: E402
 
 _KNOWN_ET_PREFIX = known("C08-elementtree-source-loses-prefixes")
-_PREFIX_VALUE_DOCS = ("qnames", "anytyped", "enums")  # documents whose CONTENT uses prefixes (QName values, xsi:type of builtins)
+_PREFIX_VALUE_DOCS = ("qnames", "anytyped", "enums")  # documents whose CONTENT uses prefixes (QName values, xsi:type of builtins); also every any* document (xsi:type="xs:...")
 
 
 def _sources(doc, src, h):
     handler = ("lxml", "native")[h]
     source = textpath.SOURCES[src]
     cls, text = textpath.doc_text(doc)
-    if _KNOWN_ET_PREFIX and source.startswith("et_") and (doc in _PREFIX_VALUE_DOCS or ':type="' in text):
+    if _KNOWN_ET_PREFIX and source.startswith("et_") and (doc in _PREFIX_VALUE_DOCS or doc.startswith("any")):
         return {"ok": True, "skipped": "exactly the signature of the listed known finding"}
     try:
         base = textpath.parse(text.encode(), cls, "native")
